@@ -47,7 +47,7 @@ void h_new_decoder(void)
 
 void h_decode_file(void)
 {
-  struct decoder *dec; FILE *f;
+  struct decoder *dec; FILE *f = &verif_file_obj;
   mon_on = 1; fmon_on = 1;
   g_len = nondet_size_t(); g_pos = 0;
   fmon_phase = FPH_START; fmon_lines = nondet_ulong(); g_lines_listed = fmon_lines;
